@@ -812,7 +812,7 @@ impl<'a, T: std::fmt::Debug> WaitingState<'a, T> {
 
         let mut start = 0;
         let mut end = len;
-        let delay = self.delay + self.ticks;
+        let delay = self.delay.saturating_add(self.ticks);
         while start < len {
             let sub_chord = &chord_keys[start..end];
             let chord_mask = sub_chord
@@ -1134,7 +1134,7 @@ impl<'a, const C: usize, const R: usize, T: 'a + Copy + std::fmt::Debug> Layout<
             let hold = w.hold;
             let coord = w.coord;
             let delay = match w.config {
-                WaitingConfig::HoldTap(..) | WaitingConfig::Chord(_) => w.delay + w.ticks,
+                WaitingConfig::HoldTap(..) | WaitingConfig::Chord(_) => w.delay.saturating_add(w.ticks),
                 WaitingConfig::TapDance(_) => 0,
             };
             let layer_stack = w.layer_stack.clone();
@@ -1165,7 +1165,7 @@ impl<'a, const C: usize, const R: usize, T: 'a + Copy + std::fmt::Debug> Layout<
             let tap = w.tap;
             let coord = w.coord;
             let delay = match w.config {
-                WaitingConfig::HoldTap(..) | WaitingConfig::Chord(_) => w.delay + w.ticks,
+                WaitingConfig::HoldTap(..) | WaitingConfig::Chord(_) => w.delay.saturating_add(w.ticks),
                 WaitingConfig::TapDance(_) => 0,
             };
             let layer_stack = w.layer_stack.clone();
@@ -1246,7 +1246,7 @@ impl<'a, const C: usize, const R: usize, T: 'a + Copy + std::fmt::Debug> Layout<
             let timeout_action = w.timeout_action;
             let coord = w.coord;
             let delay = match w.config {
-                WaitingConfig::HoldTap(..) | WaitingConfig::Chord(_) => w.delay + w.ticks,
+                WaitingConfig::HoldTap(..) | WaitingConfig::Chord(_) => w.delay.saturating_add(w.ticks),
                 WaitingConfig::TapDance(_) => 0,
             };
             let layer_stack = w.layer_stack.clone();
